@@ -1440,21 +1440,20 @@ theorem run_some_inputs (n : Node) (σ σ' : St) (h : run n σ = some σ') : ∀
     split at h
     · cases h
     · rename_i hnd
-      exact (anyNd_false_iff _ _).mp (by simpa using hnd)
+      exact (anyNd_false_iff _ _).mp (by simpa [Node.arity] using hnd)
   | mac args body rets oh s =>
     simp only [run] at h
     split at h
     · cases h
     · rename_i hnd
-      exact (anyNd_false_iff _ _).mp (by simpa using hnd)
+      exact (anyNd_false_iff _ _).mp (by simpa [Node.arity] using hnd)
 
 theorem reach_inv (n : Node) (hwf : WF n) (hnd : NoDupH n) (σ : St) (h : Reach n σ) :
     Inv true n σ ∧ OutSync n σ := by
   induction h with
   | build => exact ⟨build_inv n hwf, build_outSync n⟩
   | setIn k v _ ih => exact ⟨setIn_inv true n _ k v ih.1, setIn_outSync n _ k v ih.2⟩
-  | run _ hrun ih =>
-    rename_i σ0 σ1
+  | @run σ0 σ1 _ hrun ih =>
     obtain ⟨σ2, h2, _, hi, ho, _⟩ := run_value n σ0 (σ0.get .inp) hwf hnd ih.1 (fun _ _ => rfl)
       (run_some_inputs n σ0 σ1 hrun)
     rw [hrun] at h2
@@ -1528,22 +1527,24 @@ end
 
 /-! ## isolation -/
 
+/-- the partner of a connection of a child input is what the creator's keyword argument named:
+a UI node that was kept, or an output of another child -/
+def PeerOk (kp : Nat → Bool) (s : Option Src) : Peer → Prop
+  | .ui k => kp k = true ∧ s = some (.arg k)
+  | .kid j o => s = some (.out j o)
+
 theorem mem_kidConns (kp : Nat → Bool) (ss : List Src) (i0 i : Nat) (p : Peer) (h : (i, p) ∈ kidConns kp ss i0) :
-    i0 ≤ i ∧ match p with
-      | .ui k => kp k = true ∧ ss[i - i0]? = some (.arg k)
-      | .kid j o => ss[i - i0]? = some (.out j o) := by
+    i0 ≤ i ∧ PeerOk kp ss[i - i0]? p := by
   induction ss generalizing i0 with
   | nil => simp [kidConns] at h
   | cons s ss ih =>
-    have step : ∀ (h' : (i, p) ∈ kidConns kp ss (i0 + 1)), i0 ≤ i ∧ match p with
-        | .ui k => kp k = true ∧ (s :: ss)[i - i0]? = some (.arg k)
-        | .kid j o => (s :: ss)[i - i0]? = some (.out j o) := by
+    have step : (i, p) ∈ kidConns kp ss (i0 + 1) → i0 ≤ i ∧ PeerOk kp (s :: ss)[i - i0]? p := by
       intro h'
       obtain ⟨h1, h2⟩ := ih (i0 + 1) h'
       have e : i - i0 = (i - (i0 + 1)) + 1 := by omega
       refine ⟨by omega, ?_⟩
       rw [e]
-      cases p <;> simpa using h2
+      simpa using h2
     cases s with
     | arg k =>
       simp only [kidConns, List.mem_append] at h
@@ -1551,15 +1552,185 @@ theorem mem_kidConns (kp : Nat → Bool) (ss : List Src) (i0 i : Nat) (p : Peer)
       · by_cases hk : kp k = true
         · simp [hk] at h
           obtain ⟨rfl, rfl⟩ := h
-          simp [hk]
+          simp [PeerOk, hk]
         · simp [hk] at h
       · exact step h
     | out j o =>
       simp only [kidConns, List.mem_cons] at h
       rcases h with h | h
-      · cases h; simp
+      · cases h; simp [PeerOk]
       · exact step h
     | const v => simp only [kidConns] at h; exact step h
     | none => simp only [kidConns] at h; exact step h
+
+
+/-! ## inlining preserves the meaning -/
+
+theorem denote_oob (n : Node) (a : Nat → Val) (o : Nat) (h : n.nout ≤ o) : denote n a o = .nd := by
+  cases n with
+  | leaf f s =>
+    simp only [Node.nout] at h
+    have : o ≠ 0 := by omega
+    simp [denote, this]
+  | mac args body rets oh s =>
+    simp only [Node.nout] at h
+    have : rets[o]? = none := by simp [h]
+    simp [denote, this]
+
+theorem memo_denote (n : Node) (a : Nat → Val) : memo n.nout (denote n a) = denote n a := by
+  funext o
+  by_cases h : o < n.nout
+  · exact memo_lt _ _ _ h
+  · rw [denote_oob n a o (by omega)]
+    have : (List.range n.nout)[o]? = none := by simp; omega
+    simp [memo, List.getD, this]
+
+theorem evalFlat_append (l1 l2 : List FNode) (b : Nat) (env : Nat → Val) :
+    evalFlat (l1 ++ l2) b env = evalFlat l2 (b + l1.length) (evalFlat l1 b env) := by
+  induction l1 generalizing b env with
+  | nil => simp [evalFlat]
+  | cons n l1 ih =>
+    simp only [List.cons_append, evalFlat, List.length_cons]
+    rw [ih]
+    congr 1; omega
+
+theorem evalFlat_frame (l : List FNode) (b : Nat) (env : Nat → Val) (i : Nat) (h : i < b) :
+    evalFlat l b env i = env i := by
+  induction l generalizing b env with
+  | nil => simp [evalFlat]
+  | cons n l ih =>
+    simp only [evalFlat]
+    rw [ih (b + 1) _ (by omega)]
+    simp [updF]; omega
+
+/-- a source that only looks below `b` -/
+def FSrc.Below (b : Nat) : FSrc → Prop
+  | .const _ => True
+  | .node i => i < b
+
+theorem FSrc.eval_stable {s : FSrc} {b : Nat} {env env' : Nat → Val} (hs : s.Below b)
+    (h : ∀ i, i < b → env' i = env i) : s.eval env' = s.eval env := by
+  cases s with
+  | const v => rfl
+  | node i => exact h i hs
+
+theorem FSrc.Below.mono {s : FSrc} {b b' : Nat} (hs : s.Below b) (h : b ≤ b') : s.Below b' := by
+  cases s with
+  | const v => trivial
+  | node i => exact Nat.lt_of_lt_of_le hs h
+
+theorem fresolve_eval (n : Node) (inp : Nat → FSrc) (acc : Nat → Nat → FSrc) (env : Nat → Val)
+    (dacc : Nat → Nat → Val) (hacc : ∀ j o, (acc j o).eval env = dacc j o) (i : Nat) :
+    (fresolve n inp acc i).eval env = resolve n (fun k => (inp k).eval env) dacc i := by
+  unfold fresolve resolve
+  cases n.srcs[i]? with
+  | none => rfl
+  | some s =>
+    cases s with
+    | arg k => rfl
+    | out j o => exact hacc j o
+    | const v => rfl
+    | none => rfl
+
+theorem fresolve_below (n : Node) (inp : Nat → FSrc) (acc : Nat → Nat → FSrc) (b : Nat)
+    (hinp : ∀ k, (inp k).Below b) (hacc : ∀ j o, (acc j o).Below b) (i : Nat) : (fresolve n inp acc i).Below b := by
+  unfold fresolve
+  cases n.srcs[i]? with
+  | none => trivial
+  | some s =>
+    cases s with
+    | arg k => exact hinp k
+    | out j o => exact hacc j o
+    | const v => trivial
+    | none => trivial
+
+mutual
+theorem flat_spec : ∀ (n : Node) (inp : Nat → FSrc) (base : Nat) (env : Nat → Val),
+    (∀ k, (inp k).Below base) →
+    (∀ i, i < base → evalFlat (flat n inp base).1 base env i = env i) ∧
+    (∀ o, ((flat n inp base).2 o).Below (base + (flat n inp base).1.length)) ∧
+    (∀ o, ((flat n inp base).2 o).eval (evalFlat (flat n inp base).1 base env) =
+      denote n (fun k => (inp k).eval env) o)
+  | .leaf f srcs, inp, base, env, hinp => by
+    simp only [flat]
+    refine ⟨fun i hi => evalFlat_frame _ _ _ _ hi, ?_, ?_⟩
+    · intro o
+      by_cases ho : o = 0
+      · simp [ho, FSrc.Below]
+      · simp [ho, FSrc.Below]
+    · intro o
+      by_cases ho : o = 0
+      · subst ho
+        simp [evalFlat, FSrc.eval, denote, updF, List.map_map, Function.comp_def]
+      · simp [ho, FSrc.eval, denote]
+  | .mac args body rets oh s, inp, base, env, hinp => by
+    simp only [flat]
+    obtain ⟨h1, h2, h3⟩ := flatBody_spec body 0 inp base (fun _ _ => .const .nd) env (fun _ _ => .nd) hinp
+      (fun _ _ => trivial) (fun _ _ => rfl)
+    refine ⟨h1, ?_, ?_⟩
+    · intro o
+      cases hr : rets[o]? with
+      | none => trivial
+      | some x =>
+        cases x with
+        | arg k => exact (hinp k).mono (by omega)
+        | out j oo => exact h2 j oo
+    · intro o
+      simp only [denote]
+      cases hr : rets[o]? with
+      | none => rfl
+      | some x =>
+        cases x with
+        | arg k => exact FSrc.eval_stable (hinp k) h1
+        | out j oo => exact h3 j oo
+theorem flatBody_spec : ∀ (ns : List Node) (j : Nat) (inp : Nat → FSrc) (base : Nat) (acc : Nat → Nat → FSrc)
+    (env : Nat → Val) (dacc : Nat → Nat → Val),
+    (∀ k, (inp k).Below base) → (∀ j' o, (acc j' o).Below base) →
+    (∀ j' o, (acc j' o).eval env = dacc j' o) →
+    (∀ i, i < base → evalFlat (flatBody ns j inp base acc).1 base env i = env i) ∧
+    (∀ j' o, ((flatBody ns j inp base acc).2 j' o).Below (base + (flatBody ns j inp base acc).1.length)) ∧
+    (∀ j' o, ((flatBody ns j inp base acc).2 j' o).eval (evalFlat (flatBody ns j inp base acc).1 base env) =
+      denoteBody ns j (fun k => (inp k).eval env) dacc j' o)
+  | [], j, inp, base, acc, env, dacc, hinp, hacc, hval => by
+    simp only [flatBody, evalFlat, denoteBody]
+    exact ⟨by intros; trivial, fun j' o => (hacc j' o).mono (by simp), hval⟩
+  | n :: ns, j, inp, base, acc, env, dacc, hinp, hacc, hval => by
+    simp only [flatBody, denoteBody]
+    obtain ⟨a1, a2, a3⟩ := flat_spec n (fresolve n inp acc) base env (fresolve_below n inp acc base hinp hacc)
+    have hb : base ≤ base + (flat n (fresolve n inp acc) base).1.length := by omega
+    have hres : (fun i => (fresolve n inp acc i).eval env) = resolve n (fun k => (inp k).eval env) dacc := by
+      funext i; exact fresolve_eval n inp acc env dacc hval i
+    obtain ⟨b1, b2, b3⟩ := flatBody_spec ns (j + 1) inp (base + (flat n (fresolve n inp acc) base).1.length)
+      (fun j' => if j' = j then (flat n (fresolve n inp acc) base).2 else acc j')
+      (evalFlat (flat n (fresolve n inp acc) base).1 base env)
+      (fun j' => if j' = j then memo n.nout (denote n (resolve n (fun k => (inp k).eval env) dacc)) else dacc j')
+      (fun k => (hinp k).mono hb)
+      (by
+        intro j' o
+        by_cases he : j' = j
+        · simp only [he, if_true]; exact a2 o
+        · simp only [he, if_false]; exact (hacc j' o).mono hb)
+      (by
+        intro j' o
+        by_cases he : j' = j
+        · simp only [he, if_true]
+          rw [a3 o, hres, memo_denote]
+        · simp only [he, if_false]
+          rw [FSrc.eval_stable (hacc j' o) a1]
+          exact hval j' o)
+    have hinp' : (fun k => (inp k).eval (evalFlat (flat n (fresolve n inp acc) base).1 base env)) =
+        (fun k => (inp k).eval env) := by
+      funext k; exact FSrc.eval_stable (hinp k) a1
+    rw [hinp'] at b3
+    rw [evalFlat_append]
+    refine ⟨?_, ?_, b3⟩
+    · intro i hi
+      rw [b1 i (by omega), a1 i hi]
+    · intro j' o
+      have := b2 j' o
+      rw [List.length_append]
+      rw [Nat.add_assoc] at this
+      exact this
+end
 
 end PwVerif.Macro
